@@ -42,6 +42,7 @@ import (
 	pb "github.com/prometheus/alertmanager/silence/silencepb"
 
 	"verifharness/sysrun"
+	"verifharness/appsys"
 	"verifharness/vh"
 )
 
@@ -1401,6 +1402,11 @@ func (r *runner) term(ext string) string {
 func TestCheck(t *testing.T) {
 	env := vh.GetEnv()
 	run := vh.NewRun(env, "AM.Run.C02Run")
+	// app engine: the REAL application wiring (package app) in real time, in its own process; reports through run.
+	// true = the replay file held an app-engine case and has been handled.
+	if appsys.Part(t, env, run, "C02") {
+		return
+	}
 	{
 		ff, err := featurecontrol.NewFlags(promslog.NewNopLogger(), "")
 		if err != nil {
